@@ -485,7 +485,17 @@ class HwCheck:
                 cs += [at(c, k) for c in basec] + [at(coop, k), z3.Not(at(prog, k))]
                 if k > 0: cs += [at(a, k) == at(e, k - 1) for a, e in pairs] + [at(c, k) for c in self.inv]
             st, m, be, t = self._solve(cs)
-            out.append(res(name, "respond", PROVED if st == "unsat" else (UNKNOWN if st == "unknown" else NOINPUT), t, be, bound=n))
+            if st == "sat":
+                # witness from reset: a BMC prefix followed by n cooperative cycles without progress, replayed on the real simulator
+                def fn(at_, coop=coop, prog=prog, n=n, start=start):
+                    w = [z3.And(at_(coop, k), z3.Not(at_(prog, k))) for k in range(n)]
+                    if start is not None: w.append(at_(start, 0))
+                    return z3.Not(z3.And(*w))
+                r = self._seq_witness(name, fn, n, cid, replay_dir, t, be)
+                r["kind"] = "respond"; r["bound"] = n
+                out.append(r)
+            else:
+                out.append(res(name, "respond", PROVED if st == "unsat" else UNKNOWN, t, be, bound=n))
         for name, (fn, steps) in self.seqs.items():
             allvars = self._allvars(); at = self._at(allvars)
             goal = fn(at)
